@@ -137,7 +137,7 @@ func init() {
 }
 
 func init() {
-	register(&CheckDef{ID: "C01", Level: "model_checking", Timeout: [2]int{300, 3000}, Kinds: []string{"panic", "unwind"},
+	register(&CheckDef{ID: "C01", Level: "model_checking", Timeout: [2]int{300, 3000}, MaxSteps: 3000000, Kinds: []string{"panic", "unwind"},
 		Assumptions: []string{
 			"input stream model zzMemReader: delivers data[:L] (every truncation point) then io.EOF or an injected error",
 			"bufio.Reader, encoding/binary, io.LimitReader interpreted from their real SSA; sync.Pool.Get returns New(); zerolog at the default (panic) level; errors/fmt opaque",
@@ -165,7 +165,7 @@ func init() {
 }
 
 func init() {
-	register(&CheckDef{ID: "C10", Level: "model_checking", Timeout: [2]int{300, 1200},
+	register(&CheckDef{ID: "C10", Level: "model_checking", Timeout: [2]int{300, 1200}, MaxSteps: 30000000,
 		Assumptions: []string{"input stream model zzMemReader; bufio.Reader and io.LimitedReader interpreted from their real SSA; the Exif callback consumes its declared length (premise of the property)"},
 		Bounds: map[string]interface{}{"sequences": "SOI, X, Exif-APP1 (16 payload bytes), Y, XMP-APP1 (12 packet bytes), DQT, 70 data bytes, and the order with XMP first; X = Y from {none, APP0, APP2, COM, DRI, foreign APP1, APPn holding SOI/EOI bytes}; payload bytes arbitrary incl. 0xFF; XMP callback consumption 0..15 bytes", "nonmeta": "one APPn/COM/SOF segment with 40 arbitrary payload bytes"},
 	})
@@ -190,17 +190,17 @@ func init() {
 
 func init() {
 	register(&CheckDef{ID: "C13", Level: "model_checking", Timeout: [2]int{400, 1500},
-		Assumptions: []string{"input stream model zzMemReader; bufio interpreted (ReadSlice's bytes.IndexByte is a first-match intrinsic)", "values range over printable ASCII without < > \" ' & = (XML character data without entity references)"},
+		Assumptions: []string{"input stream model zzMemReader; bufio interpreted (ReadSlice's bytes.IndexByte is a first-match intrinsic)", "values range over printable ASCII without < > & = and without the delimiting quote character (the other quote is allowed)"},
 		Bounds: map[string]interface{}{"packets": "one rdf:Description with 8 properties (tiff:Make/Model/ImageWidth/Orientation, xmp:CreatorTool/Label/Rating, one foreign), attribute form with both quote characters and 3 junk bytes before the root, element form, dc:creator rdf:Seq with 3 items", "value_lengths": "1, 4, 9 bytes (attribute form), 1, 4, 6 (element form), 3/1/1 digits (numbers)", "outside": "values straddling the 128/256/512-byte look-ahead steps, other namespaces, dates/floats/UUIDs"},
 	})
 }
 
 func init() {
-	register(&CheckDef{ID: "C02", Level: "model_checking", Timeout: [2]int{300, 3000}, Also: []string{"C01"},
+	register(&CheckDef{ID: "C02", Level: "model_checking", Timeout: [2]int{300, 3000}, MaxSteps: 3000000, Also: []string{"C01"},
 		FnPattern: `^zzC0[12]_(jpeg_hole|jpeg_seq|jpeg_filler|jpeg_trunc|tiff_free|png_free|png_sig|bmff_infe|bmff_iloc|bmff_top|exif_next|exif_subifds|exif_ifdoff)$`,
 		Kinds:     []string{"unwind", "assert"}, AssertOnly: "bytes requested",
 		Assumptions: []string{
-			"termination is decided as an unwinding assertion: a path that exceeds the step budget (60000 SSA instructions for streams of at most ~150 bytes) yields a model that is replayed natively under a 20 s watchdog; only a native hang is a violation",
+			"termination is decided as an unwinding assertion: a path that exceeds the step budget (3000000 SSA instructions for streams of at most ~150 bytes) yields a model that is replayed natively under a 20 s watchdog; only a native hang is a violation",
 			"bytes requested from the underlying reader are counted by the stream model (bufio's fills are real calls on it): requested <= 4*len+64KiB is asserted at every return",
 			"CPU time per byte is represented by the step budget, not by wall-clock",
 		},
@@ -239,7 +239,7 @@ func init() {
 func init() {
 	register(&CheckDef{ID: "C06", Level: "model_checking", Timeout: [2]int{300, 1200},
 		Assumptions: []string{"input stream model zzMemReader; bufio interpreted; sync.Pool.Get returns New(); logger at the default level"},
-		Bounds: map[string]interface{}{"payload": "TIFF header + IFD0 {ImageWidth SHORT, Orientation SHORT, Software ASCII[6] out of line}, all values symbolic, II and MM", "containers": "bare TIFF; JPEG (APP0, APP1, DQT, 70 data bytes) through DecodeJPEG and Decode; PNG (one foreign chunk, eXIf); CR3 (ftyp, moov/uuid/CMT1, free)", "outside": "HEIF item-location route, CMT2-4, other surroundings"},
+		Bounds: map[string]interface{}{"payload": "TIFF header + IFD0 {ImageWidth SHORT, Orientation SHORT, Software ASCII[6] out of line}, all values symbolic, II and MM", "containers": "bare TIFF; HEIF-branded file with 0..3 arbitrary bytes before the payload (Decode, DecodeHeif); JPEG (APP0, APP1, DQT, 70 data bytes) through DecodeJPEG and Decode; PNG (one foreign chunk, eXIf); CR3 (ftyp, moov/uuid/CMT1, free)", "outside": "HEIF item-location route, CMT2-4, other surroundings"},
 	})
 	register(&CheckDef{ID: "C04", Level: "model_checking", Timeout: [2]int{400, 1500}, MaxSteps: 30000000,
 		Assumptions: []string{
